@@ -216,7 +216,10 @@ fn grammar(rep: &mut Report, rng: &mut Rng, n: usize) {
         if t1 != t2 { rep.violate("property", "c15-print-not-fixpoint", format!("`{src}`: print(parse(print(parse src))) = `{t2}` differs from print(parse src) = `{t1}`"), json!({"source": src})); continue; }
         // nothing lost: the printed text carries the same tree as the source, for the command forms that
         // print in their own surface syntax
-        let sugar = ["run", "datatype", "rewrite", "birewrite", "relation", "fail"].contains(&head.as_str()) || src.starts_with("(let $") ;
+        // (run-schedule ..): the parser normalises the implicit/nested `seq`s, so the printed text is the normal form of
+        // the source, not the source; that it parses back to the SAME TREE is what `t1 == t2` above decides, because the
+        // schedule printer is a faithful rendering of the tree (one head per constructor)
+        let sugar = ["run", "run-schedule", "datatype", "rewrite", "birewrite", "relation", "fail"].contains(&head.as_str()) || src.starts_with("(let $") ;
         if !sugar {
             if let (Ok(a), Ok(b)) = (sexp::parse_all(&src), sexp::parse_all(&t1)) {
                 if a.len() != b.len() || !a.iter().zip(&b).all(|(x, y)| same_tree(x, y)) {
